@@ -4,7 +4,7 @@ p=$1; from=${2:-0}; to=${3:-60}; seed=${4:-5}
 cat > /var/tmp/dev/job3.json <<EOJ
 {"property":"$p","tier":"quick","seed":$seed,"mode":"cases","from":$from,"to":$to,"out":"/var/tmp/dev/out3.json","shrink_ms":4000,"nshards":${NSH:-0}}
 EOJ
-VERIF_JOB=/var/tmp/dev/job3.json GOMAXPROCS=1 /var/tmp/dev/worker-${PROFILE:-client}.test -test.run TestWorker -test.timeout 0 2>&1 | grep -v '^PASS\|"level"' | tail -5
+VERIF_JOB=/var/tmp/dev/job3.json GOMAXPROCS=1 /var/tmp/dev/worker-${PROFILE:-client}.test -test.run TestWorker -test.timeout 0 2>&1 | grep -v '^PASS\|"level"' | tail -25
 python3 - <<'EOP'
 import json
 o=json.load(open('/var/tmp/dev/out3.json'))
